@@ -26,6 +26,10 @@ CHECKS = {
    text="partial: totality theorems exist only for the modelled stages (the precedence climber returns a tree for every chain, so the parser's panic! there is unreachable; definitional integer arithmetic and ranges never leave i64; the VM model reaches no Bug outcome on translator output, see C01). The property as a whole is decided by a crash stream: edge-case programs (all operators and ranges over i64 extremes, format/cast/arity mismatches), every shipped .ucg file and fuzz-corpus entry, token-level mutations of shipped and generated programs, random token/UTF-8/byte soup, each through tokenize, parse, type-check, translate, evaluate (+ every converter) and format, each stage under catch_unwind in child processes with time and memory limits",
    note="partial by nature: panics and stack exhaustion are runtime events inside unmodelled code (parser combinators, type checker, printer, third-party crates); one listed known finding (exponential parse time in nesting depth)",
    technique="Coq totality theorems for the modelled stages + crash-stream exploration of the real pipeline"),
+ "C09": dict(category="proof",
+   text="Coq theorems: the table of which fields of every Expression/Statement variant hold sub-expressions and which of them the AST walker descends into is regenerated from src/ast/mod.rs and src/ast/walk.rs on every run and proved complete (finite obligation), hence the path-rewriting walker visits every node of every AST (generic rose-tree theorem); path normalisation is idempotent, identifies exactly the spellings that denote the same file, and joining a relative import to the importing file's directory yields the file that path denotes from there. The import cache/stack state machine (once per build, cycles are errors) is modelled separately. Tied to the real binary: one project per syntactic position of an import (incl. callbacks, fail message, module body/out expression/parameter default) and seeded project trees with DAGs and cycles, paths spelled with ./ ../ and redundant segments, each built from up to five working directories; totals, per-file evaluation counts (TRACE marker) and cycle diagnostics are checked",
+   note="symlinks, case-insensitive file systems and cwd changes are outside the model; the import state-machine theorems are delivered separately (env/Import.v)",
+   technique="Coq proof (generated walker table + rose-tree induction; path normalisation lemmas) + project-tree correspondence through the ucg binary"),
  "C10": dict(category="proof",
    text="Coq theorems on the definitional semantics: every existing binding keeps its value through any further statements (scope extension), a program is its prefix followed by the rest run in the prefix's scope (so prefix bindings are stable and a failing prefix fails the program), rebinding and binding a reserved word are errors, a function body's evaluation depends only on its closure and arguments; C01's compile-correctness theorems carry these to the compiled form. Tied to the implementation by running every statement-boundary prefix of generated programs, targeted scope scenarios (format `item`, parameter/outer name clashes, closures over later names, module bodies, callbacks) against the semantics, and every documented reserved word",
    note="stated on sem/Sem.v (a model written from the reference); the reserved-word list is read from the docs on every run",
@@ -38,6 +42,10 @@ CHECKS = {
    text="JSON include is proved on the Coq model: an independent RFC 8259 parser followed by the mapping of src/convert/json.rs equals the specification (integers as integers iff the literal is integral and fits i64, otherwise floats; list order; keys), and what `out json` writes is read back as the tree written; base64 (standard and URL-safe) is proved against RFC 4648 with a strict independent decoder (round trip, alphabet, length, the variants differ only in characters 62/63). YAML and TOML includes are partial: their third-party decoders are compared with PyYAML (1.2 core) and tomllib. Tied to the implementation on documents written independently of ucg, through the importer registry and through `include` in built files; truncated/corrupted input and unknown include types must fail the build",
    note="serde_json/serde_yaml/toml/base64 crates are third party: JSON and base64 are re-modelled and compared byte/value-wise, YAML/TOML only compared with independent decoders; `-0` and integers outside i64 are outside the agreed subset",
    technique="Coq proof (JSON parser+mapping specification, base64 round trip) + differential correspondence with independent decoders"),
+ "C18": dict(category="proof",
+   text="Coq theorems on the definitional semantics: env.NAME is the variable's value as a string; an unset name is an error in strict mode and NULL otherwise; two environments that both lack NAME give the same outcome (nothing of the other variables enters); env cannot be bound by let nor as a parameter; a tuple field named env is that field. C01 carries these to the compiled form. Tied to the real process: random environments (0..20 variables, arbitrary Unicode values, a planted secret) handed to `ucg` exactly, reads of set and unset names in strict and --no-strict mode, stderr searched for values of unrelated variables, artifacts compared",
+   note="how the OS passes the environment is outside the model; diagnostics are text of the implementation, checked by search not by theorem",
+   technique="Coq proof (evaluation of the env selector) + process-level correspondence"),
  "C13": dict(category="proof",
    text="Coq state machine of the assertion collector and the `ucg test` driver: the verdict of each file equals its specification (builds and all assertions ok), independent of the other files and their order, exit status non-zero iff some file fails, each assertion logged exactly once; a lemma shows the shared collector of the original code refuted this. Tied to the real binary by running generated test files in every order and comparing verdicts, logs and exit status with the extracted model and with the generator's ground truth",
    note="per-file build abstracted to the list of asserted values; asserts in imported files and directory recursion order not modelled",
